@@ -35,7 +35,10 @@ def gen_cases(tier, seed):
              {'nx': 4, 'ny': 3, 'mi_x': [0.25, 0.5], 'mi_y': [], 'tuple_mi': True, 'log': False},
              # limits that do not survive a short decimal representation (the restart re-reads the grid from the study log)
              {'nx': 3, 'ny': 3, 'mi_x': [0.5], 'mi_y': [], 'tuple_mi': False, 'log': False, 'xlim': [0.12345678912345678, 2.718281828459045], 'ylim': [-3.141592653589793, 1.0 / 3.0]},
-             {'nx': 3, 'ny': 3, 'mi_x': [], 'mi_y': [], 'tuple_mi': False, 'log': True, 'xlim': [-2.4559319556497243, 0.6931471805599453]}]
+             {'nx': 3, 'ny': 3, 'mi_x': [], 'mi_y': [], 'tuple_mi': False, 'log': True, 'xlim': [-2.4559319556497243, 0.6931471805599453]},
+             # axes that run downwards (start > end; found by seed C18-i): without must-include values the study keeps the descending order, with them it sorts
+             {'nx': 4, 'ny': 3, 'mi_x': [], 'mi_y': [], 'tuple_mi': False, 'log': False, 'xlim': [2, 0], 'ylim': [3, -3]},
+             {'nx': 3, 'ny': 4, 'mi_x': [0.5], 'mi_y': [], 'tuple_mi': False, 'log': True, 'xlim': [1, -1], 'ylim': [3, -3]}]
     k = 0
 
     def add(grid, procs, kill=None, fail=None, second=None, inprocess=False):
@@ -56,6 +59,8 @@ def gen_cases(tier, seed):
         add(grids[1], 4, kill='7:3')
         add(grids[2], 8, kill='3:2')
         add(grids[3], 8, kill='9:3')
+        add(grids[6], 4, kill='5:3')
+        add(grids[7], 4, fail=[2, 7])
         for fail in ([0], [3, 4, 5], [1, 6, 11]):
             add(g, 4, fail=fail)
         add(grids[1], 8, fail=[2, 7])
@@ -105,8 +110,10 @@ def grid_reference(g):
     else:
         x = np.linspace(xlim[0], xlim[1], g['nx'])
         mi = np.asarray(g['mi_x'], dtype=float)
-    x = np.sort(np.unique(np.concatenate((x, mi))))
-    y = np.sort(np.unique(np.concatenate((np.linspace(ylim[0], ylim[1], g['ny']), np.asarray(g['mi_y'], dtype=float)))))
+    # the study's documented grid: start -> end in the order given; merged with the must-include values (then unique and ascending) only when there are any
+    x = np.sort(np.unique(np.concatenate((x, mi)))) if len(mi) else x
+    y = np.linspace(ylim[0], ylim[1], g['ny'])
+    y = np.sort(np.unique(np.concatenate((y, np.asarray(g['mi_y'], dtype=float))))) if len(g['mi_y']) else y
     ref = {}
     n = 0
     for i, xv in enumerate(x):
